@@ -3,7 +3,7 @@ import ast
 
 from ..repo import AnalysisError
 from ..report import Ob, RuleSpec
-from ..astutil import (src, guards, flat_guards, calls_in, call_name, kwarg, const_value,
+from ..astutil import (always_leaves, src, guards, flat_guards, calls_in, call_name, kwarg, const_value,
                        iter_own_nodes, ancestors, is_within)
 from ..cfg import cfg_of, Prov
 from .. import variants as V
@@ -428,9 +428,12 @@ def r4_bounds(repo):
             src(pos[0].value) == "self.bound.is_subtype(%s.bound)" % o
     obs.append(Ob("C06-R4", "WildCardType.is_subtype:covariant-pair-bounds-forward", _w(f), ok,
                   "wildcard-vs-wildcard is positive only for two covariant wildcards, comparing self.bound -> other.bound"))
-    last = f.node.body[-1]
+    others = [r for r in rets if r not in pos]
     obs.append(Ob("C06-R4", "WildCardType.is_subtype:default-False", _w(f),
-                  isinstance(last, ast.Return) and const_value(last.value, 1) is False, "default answer must be False"))
+                  bool(others) and always_leaves(f.node.body) and
+                  all(const_value(r.value, 1) is False for r in others),
+                  "every answer other than the guarded comparison of the bounds must be False, and the function must "
+                  "answer on every path"))
     f = repo.method(T + ".TypeConstructor", "is_subtype", inherited=False)
     o = f.params[1]
     rets = [n for n in iter_own_nodes(f.node) if isinstance(n, ast.Return)]
